@@ -430,6 +430,43 @@ func fineFinWhileScanExpires(seed uint64) []lib.Case {
 	return []lib.Case{cr.finish("fin-vs-timeout-scan#"+strconv.FormatUint(seed, 10), seed, nil, nil)}
 }
 
+// ---- a SUB to a channel name whose deletion has removed it from the topic's map and is about
+// to finish: the deletion tears the channel down BEFORE it frees the name, so the subscriber
+// gets a fresh, empty channel - never a second channel object over the dying one's queue ----
+func fineSubWhileChannelDeleting(seed uint64) []lib.Case {
+	cr := newFineCase(seed, 0) // mem-queue-size 0: the backlog is in the channel's disk queue
+	cr.opCreateTopic(1)
+	cr.opCreateChan(1, 1)
+	k1 := cr.opConnect(false, false)
+	cr.opSub(k1, 1, 1)
+	cr.opRdy(k1, 1)
+	cr.opPub(1, 3, false, false) // k1 holds one, two wait on disk
+	reached, release := nsqd.VerifArmPark("delete-channel:after-remove", 1)
+	done := make(chan int, 1)
+	go func() {
+		done <- cr.post("/channel/delete", url.Values{"topic": {tname(1)}, "channel": {cname(1)}}, nil)
+	}()
+	ok := waitReached(reached, 3*time.Second)
+	cr.tag(fmt.Sprintf("delete-parked-after-remove=%v", ok))
+	n0 := len(cr.events)
+	delete(cr.chans, [2]int{1, 1})
+	delete(cr.cpaused, [2]int{1, 1})
+	delete(cr.hadClient, [2]int{1, 1})
+	k2 := cr.opConnect(false, false)
+	cr.opSub(k2, 1, 1)
+	cr.opRdy(k2, 2) // whatever the new channel object could read of the old queue would arrive now
+	release()
+	code := <-done
+	// the deletion is recorded where its removal took effect: before the new subscription
+	ev := fmt.Sprintf("EOp (ODeleteChan 1 1) %s", httpResp(code))
+	cr.events = append(cr.events[:n0], append([]string{ev}, cr.events[n0:]...)...)
+	cr.tag("delete-channel")
+	cr.nontriv = true
+	cr.after()
+	cr.opPub(1, 1, false, false)
+	return []lib.Case{cr.finish("sub-vs-channel-delete#"+strconv.FormatUint(seed, 10), seed, nil, nil)}
+}
+
 // ---- graceful Exit while a TOUCH is between its in-flight pop and its push back: the
 // message is in no set when the channel's backlog is written ----
 func fineExitWhileTouching(seed uint64) []lib.Case {
@@ -967,6 +1004,7 @@ var fineScenarios = map[string]func(uint64) []lib.Case{
 	"exit-vs-touch":                  fineExitWhileTouching,
 	"touch-vs-timeout-scan":          fineTouchWhileScanExpires,
 	"fin-vs-timeout-scan":            fineFinWhileScanExpires,
+	"sub-vs-channel-delete":          fineSubWhileChannelDeleting,
 	"touch-vs-empty":                 fineEmptyWhileTouching,
 	"dscan-vs-empty":                 fineEmptyVsDeferredScan,
 	"two-deletes-on-ephemeral-topic": fineTwoDeletesOnEphemeralTopic,
@@ -991,10 +1029,10 @@ var fineScenarios = map[string]func(uint64) []lib.Case{
 // which forced interleavings each property's profile runs
 var fineByProfile = map[string][]string{
 	"c01": {"pump-vs-sub", "deliver-vs-disconnect", "touch-cap", "exit-vs-pub", "fin-vs-timeout-scan"},
-	"c08": {"deliver-vs-empty", "sub-vs-topic-delete", "fin-vs-empty", "empty-vs-wakeup", "scan-vs-empty", "req-vs-empty", "pub-vs-topic-delete", "two-deletes-on-ephemeral-topic", "touch-vs-empty", "dscan-vs-empty"},
+	"c08": {"deliver-vs-empty", "sub-vs-topic-delete", "fin-vs-empty", "empty-vs-wakeup", "scan-vs-empty", "req-vs-empty", "pub-vs-topic-delete", "two-deletes-on-ephemeral-topic", "touch-vs-empty", "dscan-vs-empty", "sub-vs-channel-delete"},
 	"c03": {"fin-vs-empty", "deliver-vs-empty", "pause-vs-pump"},
-	"c13": {"fin-vs-empty", "deliver-vs-empty", "touch-cap"},
-	"c02": {"deliver-vs-disconnect", "touch-then-scan", "touch-cap", "touch-vs-timeout-scan"},
+	"c13": {"fin-vs-empty", "deliver-vs-empty", "touch-cap", "sub-vs-channel-delete"},
+	"c02": {"deliver-vs-disconnect", "touch-then-scan", "touch-cap", "touch-vs-timeout-scan", "sub-vs-channel-delete"},
 	"c04": {"touch-then-scan", "touch-cap", "touch-vs-timeout-scan", "fin-vs-timeout-scan"},
 	"c05": {"exit-vs-deliver", "exit-vs-req", "exit-vs-timeout-scan", "exit-vs-deferred-scan", "deliver-vs-disconnect", "exit-vs-touch"},
 }
